@@ -1748,6 +1748,8 @@ class Engine:
 
                     def dict_init(*a, **kw):
                         for src in a:
+                            if isinstance(src, Rec) and "__dict_storage__" in src.attrs:
+                                src = src.attrs["__dict_storage__"]          # an instance of an interpreted dict subclass
                             st.update(src if isinstance(src, dict) else dict(self.iterate(src)))
                         st.update(kw)
                     return NativeFn("dict.__init__", dict_init)
